@@ -88,12 +88,13 @@ def bounds(tier, seed):
             'characters, truncation at every position; signature/payload swaps; foreign secret'}
 
 
-FLOORS = {'plain_roundtrips': 500, 'signed_roundtrips': 20, 'tampered': 50000, 'quoted_values': 300}
+FLOORS = {'via_redirect': 200, 'plain_roundtrips': 500, 'signed_roundtrips': 20, 'tampered': 50000, 'quoted_values': 300}
 
 
-def emit_cookie(om, name, value, secret):
-    """Serve a request whose handler sets the cookie; return the cookie-pair string of the Set-Cookie header."""
-    app = om.Ombott()
+def emit_cookie(om, name, value, secret, via_redirect=False):
+    """Serve a request whose handler sets the cookie (optionally followed by redirect(), which answers with a COPY of the
+    response); return the cookie-pair string of the Set-Cookie header."""
+    app = om.default_app() if via_redirect else om.Ombott()
     err = {}
 
     def h():
@@ -101,13 +102,15 @@ def emit_cookie(om, name, value, secret):
             app.response.set_cookie(name, value, secret=secret)
         except Exception as e:   # noqa
             err['e'] = f'{type(e).__name__}: {e}'
+        if via_redirect:
+            om.redirect('/next')
         return 'ok'
-    app.route('/set', 'GET', h)
+    app.route('/set', 'GET', h, overwrite=True)
     c = wsgi.call(app, wsgi.environ('GET', '/set'))
     if err:
         return None, 'set_cookie raised ' + err['e']
     sc = c.headers_all('Set-Cookie')
-    if c.code != 200 or len(sc) != 1:
+    if c.code != (303 if via_redirect else 200) or len(sc) != 1:
         return None, f'status {c.status}, {len(sc)} Set-Cookie headers'
     return cookie_pair(sc[0]), None
 
@@ -171,10 +174,14 @@ def work(spec):
                 case = {'kind': 'plain', 'name': name, 'value': v}
                 core.track(res, case)
                 res['states'] += 1
-                pair, err = emit_cookie(om, name, v, None)
+                via = (i % 3 == 1)
+                case['redirect'] = via
+                pair, err = emit_cookie(om, name, v, None, via)
                 if err:
                     core.add_violation(res, case, f'plain {v!r}: {err}', sig='plain:emit')
                     continue
+                if via:
+                    c['via_redirect'] += 1
                 got = read_wsgi(om, pair, name, None)
                 res['transitions'] += 2
                 c['plain_roundtrips'] += 1
@@ -197,6 +204,13 @@ def work(spec):
             if err:
                 core.add_violation(res, case0, f'signed {value!r}: {err}', sig='signed:emit')
                 return res
+            # the same cookie set on a response that is then turned into a redirect
+            pair_r, err_r = emit_cookie(om, name, value, secret, True)
+            got_r = read_wsgi(om, pair_r, name, secret) if not err_r else err_r
+            c['via_redirect'] += 1
+            if err_r or got_r != value:
+                core.add_violation(res, dict(case0, redirect=True), f'signed cookie {name}={value!r} set before redirect(): sent back as {pair_r!r} reads {got_r!r}',
+                                   sig='signed:roundtrip-redirect')
             before = proxy.loads_calls
             got = read_wsgi(om, pair, name, secret)
             res['states'] += 1
@@ -294,13 +308,13 @@ def replay(case):
     ch.pickle = proxy
     try:
         if case['kind'] == 'plain':
-            pair, err = emit_cookie(om, case['name'], case['value'], None)
+            pair, err = emit_cookie(om, case['name'], case['value'], None, case.get('redirect', False))
             if err:
                 return f'plain {case["value"]!r}: {err}'
             got = read_wsgi(om, pair, case['name'], None)
             if got == case['value'] or case['value'] == '':
                 return None
-            return (f'response.set_cookie({case["name"]!r}, {case["value"]!r}) emits {pair!r}; sent back as the Cookie header, '
+            return (f'response.set_cookie({case["name"]!r}, {case["value"]!r}){" followed by redirect()" if case.get("redirect") else ""} emits {pair!r}; sent back as the Cookie header, '
                     f'request.get_cookie reads {got!r}')
         if case['kind'] == 'swap':
             proxy.armed = True
@@ -314,7 +328,7 @@ def replay(case):
         secret, value = SECRETS[case['si']], SIGNED[case['vi']]
         name = case['name']
         if 'header' not in case:
-            pair, err = emit_cookie(om, name, value, secret)
+            pair, err = emit_cookie(om, name, value, secret, case.get('redirect', False))
             if err:
                 return err
             got = read_wsgi(om, pair, name, secret)
